@@ -27,6 +27,7 @@ import collada
 import numpy
 
 from collada.common import DaeBrokenRefError
+from collada.common import getReference
 from collada.common import DaeError
 from collada.common import DaeMalformedError
 from collada.common import DaeObject
@@ -499,9 +500,7 @@ class NodeNode(Node):
 
     @staticmethod
     def load(collada, node, localscope):
-        url = node.get('url')
-        if not url.startswith('#'):
-            raise DaeMalformedError('Invalid url in node instance %s' % url)
+        url = '#' + getReference(node, 'url')
         referred_node = localscope.get(url[1:])
         if not referred_node:
             referred_node = collada.nodes.get(url[1:])
@@ -568,9 +567,7 @@ class GeometryNode(SceneNode):
 
     @staticmethod
     def load(collada, node):
-        url = node.get('url')
-        if not url.startswith('#'):
-            raise DaeMalformedError('Invalid url in geometry instance %s' % url)
+        url = '#' + getReference(node, 'url')
         geometry = collada.geometries.get(url[1:])
         if not geometry:
             raise DaeBrokenRefError('Geometry %s not found in library' % url)
@@ -654,9 +651,7 @@ class ControllerNode(SceneNode):
 
     @staticmethod
     def load(collada, node):
-        url = node.get('url')
-        if not url.startswith('#'):
-            raise DaeMalformedError('Invalid url in controller instance %s' % url)
+        url = '#' + getReference(node, 'url')
         controller = collada.controllers.get(url[1:])
         if controller is None:
             raise DaeBrokenRefError('Controller %s not found in library' % url)
@@ -722,9 +717,7 @@ class MaterialNode(SceneNode):
         inputs = []
         for inputnode in node.findall(collada.tag('bind_vertex_input')):
             inputs.append((inputnode.get('semantic'), inputnode.get('input_semantic'), inputnode.get('input_set')))
-        targetid = node.get('target')
-        if not targetid.startswith('#'):
-            raise DaeMalformedError('Incorrect target id in material ' + targetid)
+        targetid = '#' + getReference(node, 'target')
         target = collada.materials.get(targetid[1:])
         if not target:
             raise DaeBrokenRefError('Material %s not found' % targetid)
@@ -784,9 +777,7 @@ class CameraNode(SceneNode):
 
     @staticmethod
     def load(collada, node):
-        url = node.get('url')
-        if not url.startswith('#'):
-            raise DaeMalformedError('Invalid url in camera instance %s' % url)
+        url = '#' + getReference(node, 'url')
         camera = collada.cameras.get(url[1:])
         if not camera:
             raise DaeBrokenRefError('Camera %s not found in library' % url)
@@ -832,9 +823,7 @@ class LightNode(SceneNode):
 
     @staticmethod
     def load(collada, node):
-        url = node.get('url')
-        if not url.startswith('#'):
-            raise DaeMalformedError('Invalid url in light instance %s' % url)
+        url = '#' + getReference(node, 'url')
         light = collada.lights.get(url[1:])
         if not light:
             raise DaeBrokenRefError('Light %s not found in library' % url)
